@@ -29,8 +29,9 @@ type ErrUnsupported struct{ What string }
 func (e *ErrUnsupported) Error() string { return "unsupported construct in generated mock: " + e.What }
 
 type structInfo struct {
-	fields map[string]ast.Expr // field name -> type expression
-	order  []string
+	fields   map[string]ast.Expr // field name -> type expression
+	order    []string
+	embedded []string // names of embedded (anonymous) fields, whose own fields are promoted
 }
 
 type inst struct {
@@ -187,6 +188,14 @@ func (in *inst) structOf(st *ast.StructType) *structInfo {
 	si := &structInfo{fields: map[string]ast.Expr{}}
 	for _, fl := range st.Fields.List {
 		fl.Doc, fl.Comment = nil, nil
+		if len(fl.Names) == 0 {
+			if n := recvBase(fl.Type); n != "" {
+				si.fields[n] = fl.Type
+				si.order = append(si.order, n)
+				si.embedded = append(si.embedded, n)
+			}
+			continue
+		}
 		for _, n := range fl.Names {
 			si.fields[n.Name] = fl.Type
 			si.order = append(si.order, n.Name)
@@ -213,6 +222,10 @@ func (in *inst) isSyncType(e ast.Expr) bool {
 
 func (in *inst) subStruct(e ast.Expr) *structInfo {
 	switch t := e.(type) {
+	case *ast.StarExpr: // a field of pointer type: selectors go through it
+		return in.subStruct(t.X)
+	case *ast.ParenExpr:
+		return in.subStruct(t.X)
 	case *ast.StructType:
 		return in.structOf(t)
 	case *ast.Ident:
@@ -236,6 +249,39 @@ type fctx struct {
 	in    *inst
 	roots map[string]*structInfo // identifiers that denote (pointers to) structs of this file
 	ptrs  map[string]bool        // other pointer-typed parameters
+	// lastType is the declared type of the field the last successful resolve ended at
+	lastType ast.Expr
+}
+
+func isSliceType(e ast.Expr) bool {
+	a, ok := e.(*ast.ArrayType)
+	return ok && a.Len == nil
+}
+
+func isArrayOrSliceType(e ast.Expr) bool {
+	_, ok := e.(*ast.ArrayType)
+	return ok
+}
+
+// promoted finds name among the fields promoted from si's embedded structs
+// and returns the path of embedded field names leading to it.
+func (c *fctx) promoted(si *structInfo, name string, depth int) ([]string, *structInfo) {
+	if depth > 3 {
+		return nil, nil
+	}
+	for _, e := range si.embedded {
+		sub := c.in.subStruct(si.fields[e])
+		if sub == nil {
+			continue
+		}
+		if _, ok := sub.fields[name]; ok {
+			return []string{e}, sub
+		}
+		if path, holder := c.promoted(sub, name, depth+1); holder != nil {
+			return append([]string{e}, path...), holder
+		}
+	}
+	return nil, nil
 }
 
 // resolve splits a selector chain rooted at the receiver into the longest
@@ -277,13 +323,26 @@ func (c *fctx) resolve(e ast.Expr) (loc ast.Expr, label string, leaves []access,
 	for i, name := range chain {
 		ft, isField := si.fields[name]
 		if !isField {
-			if i == 0 {
-				return nil, "", nil, false, false // a method of the mock
+			// a field promoted from an embedded struct?
+			if path, holder := c.promoted(si, name, 0); holder != nil {
+				for _, e := range path {
+					built = &ast.SelectorExpr{X: built, Sel: ast.NewIdent(e)}
+					names = append(names, e)
+				}
+				si = holder
+				ft, isField = si.fields[name], true
 			}
-			break
+		}
+		if !isField {
+			// a method: of the mock itself (i == 0) or of a struct-typed field
+			// (mock.calls.Get.add(x)): calling it is not an access, its body is
+			// instrumented where it is declared
+			_ = i
+			return nil, "", nil, false, false
 		}
 		built = &ast.SelectorExpr{X: built, Sel: ast.NewIdent(name)}
 		names = append(names, name)
+		c.lastType = ft
 		if c.in.isSyncType(ft) {
 			return built, strings.Join(names, "."), nil, true, true
 		}
@@ -343,6 +402,11 @@ func (c *fctx) collect(e ast.Node, write bool, out *[]access) {
 				return
 			}
 			*out = append(*out, access{expr: loc, label: label, write: write})
+			return
+		}
+		if _, _, leaves, _, okX := c.resolve(t.X); okX && leaves != nil {
+			// a method of a struct-typed field (mock.calls.Get.add): taking the
+			// receiver's address is not an access; the method's own body is probed
 			return
 		}
 		c.collect(t.X, false, out)
@@ -425,8 +489,8 @@ func (c *fctx) elementOf(e ast.Expr) *access {
 			continue
 		case *ast.IndexExpr:
 			_, label, leaves, sync, ok := c.resolve(t.X)
-			if !ok || sync || leaves != nil {
-				return nil
+			if !ok || sync || leaves != nil || !isArrayOrSliceType(c.lastType) {
+				return nil // in particular a map: m[k] is not addressable, the map itself is the location
 			}
 			return &access{expr: t, label: label + "[i]", write: true}
 		}
@@ -457,6 +521,18 @@ func (c *fctx) probes(acc []access) []ast.Stmt {
 	return out
 }
 
+// isAppendCall: only "x = append(x, ...)" is split around the probes (the
+// temporary has exactly the slice's type); arithmetic on untyped constants
+// would be retyped by a temporary.
+func isAppendCall(e ast.Expr) bool {
+	call, ok := e.(*ast.CallExpr)
+	if !ok {
+		return false
+	}
+	id, ok := call.Fun.(*ast.Ident)
+	return ok && id.Name == "append"
+}
+
 func ptrTo(a access) ast.Expr {
 	if a.isPtr {
 		return a.expr
@@ -478,9 +554,16 @@ func (c *fctx) stmt(s ast.Stmt) []ast.Stmt {
 		if t.Tok == token.DEFINE && len(t.Lhs) == len(t.Rhs) {
 			for i, r := range t.Rhs {
 				if u, ok := r.(*ast.UnaryExpr); ok && u.Op == token.AND {
-					if _, _, _, sync, ok := c.resolve(u.X); ok && !sync {
+					if _, _, leaves, sync, ok := c.resolve(u.X); ok && !sync {
 						if id, ok := t.Lhs[i].(*ast.Ident); ok && id.Name != "_" {
-							c.ptrs[id.Name] = true // p := &mock.calls.X : *p is that location
+							if leaves != nil {
+								// c := &mock.calls : c.X are the same locations
+								if sub := c.in.subStruct(c.lastType); sub != nil {
+									c.roots[id.Name] = sub
+								}
+							} else {
+								c.ptrs[id.Name] = true // p := &mock.calls.X : *p is that location
+							}
 						}
 					}
 				}
@@ -511,7 +594,7 @@ func (c *fctx) stmt(s ast.Stmt) []ast.Stmt {
 		if len(writes) == 0 {
 			return append(c.probes(reads), s)
 		}
-		if len(t.Lhs) == 1 && len(t.Rhs) == 1 && len(reads) > 0 && (t.Tok == token.ASSIGN || isOpAssign(t.Tok)) {
+		if len(t.Lhs) == 1 && len(t.Rhs) == 1 && len(reads) > 0 && t.Tok == token.ASSIGN && isAppendCall(t.Rhs[0]) {
 			// read-modify-write: probe-read; evaluate into a temporary; probe-write; store
 			c.in.tmpN++
 			tmp := ast.NewIdent(fmt.Sprintf("moqsimTmp%d", c.in.tmpN))
@@ -531,7 +614,7 @@ func (c *fctx) stmt(s ast.Stmt) []ast.Stmt {
 								Args: []ast.Expr{call.Args[0], &ast.BasicLit{Kind: token.STRING, Value: strconv.Quote("*" + pid.Name)}},
 							}})
 						}
-					} else if loc, label, leaves, sync, ok := c.resolve(call.Args[0]); ok && !sync && leaves == nil {
+					} else if loc, label, leaves, sync, ok := c.resolve(call.Args[0]); ok && !sync && leaves == nil && isSliceType(c.lastType) {
 						c.in.used = true
 						out = append(out, &ast.ExprStmt{X: &ast.CallExpr{
 							Fun:  &ast.SelectorExpr{X: ast.NewIdent(simrtName), Sel: ast.NewIdent("AppendProbe")},
@@ -561,7 +644,7 @@ func (c *fctx) stmt(s ast.Stmt) []ast.Stmt {
 		pre := c.probes(acc)
 		if call, ok := t.X.(*ast.CallExpr); ok && len(call.Args) > 0 {
 			if id, ok := call.Fun.(*ast.Ident); ok && (id.Name == "clear" || id.Name == "copy") {
-				if _, label, leaves, sync, ok := c.resolve(call.Args[0]); ok && !sync && leaves == nil {
+				if _, label, leaves, sync, ok := c.resolve(call.Args[0]); ok && !sync && leaves == nil && isSliceType(c.lastType) {
 					c.in.used = true
 					pre = append(pre, &ast.ExprStmt{X: &ast.CallExpr{
 						Fun:  &ast.SelectorExpr{X: ast.NewIdent(simrtName), Sel: ast.NewIdent("ElemsProbe")},
